@@ -238,7 +238,8 @@ class Emit:
             raw = v[2:-1]; bs = []
             i = 0
             while i < len(raw):
-                if raw[i] == '\\': bs.append(int(raw[i+1:i+3], 16)); i += 3
+                if raw[i] == '\\' and raw[i+1] == '\\': bs.append(92); i += 2
+                elif raw[i] == '\\': bs.append(int(raw[i+1:i+3], 16)); i += 3
                 else: bs.append(ord(raw[i])); i += 1
             return Val('{{%s}}' % ','.join(map(str, bs)) if False else '{%s}' % ','.join(map(str, bs)), t)
         if v in ('{', '<{', '['):
@@ -463,7 +464,9 @@ class Emit:
                 out.append('extern %s %s;' % (ct, s.gname(name)) if ext else '%s %s;' % (ct, s.gname(name))); continue
             v = s.parse_val(p, t, None)
             init = v.c
-            if s.res(t).k == 'arr': init = '{%s}' % init if not init.startswith('{{') and init != '{0}' else init
+            if s.res(t).k == 'arr' and init != '{0}':
+                el = s.res(s.res(t).el)
+                if not (init.startswith('{{') and el.k not in ('struct', 'arr')): init = '{%s}' % init     # array wrapper struct { T a[N]; }
             out.append('%s %s = %s;' % (ct, s.gname(name), init))
         # order: declarations first to allow address cross refs
         decls = []
@@ -624,6 +627,12 @@ class Emit:
         if op == 'fcmp':
             while p.peek()[1] in ('fast', 'nnan', 'ninf', 'nsz'): p.next()
             pred = p.next()[1]; t = parse_type(p); a = s.parse_val(p, t, f); p.expect(','); b = s.parse_val(p, t, f)
+            if pred == 'uno': return setd(T('int', bits=1), '((%s != %s) || (%s != %s))' % (a.c, a.c, b.c, b.c))
+            if pred == 'ord': return setd(T('int', bits=1), '((%s == %s) && (%s == %s))' % (a.c, a.c, b.c, b.c))
+            if pred in ('true', 'false'): return setd(T('int', bits=1), '1' if pred == 'true' else '0')
+            if pred in ('ugt', 'uge', 'ult', 'ule'):      # unordered or relation
+                sym = {'ugt': '>', 'uge': '>=', 'ult': '<', 'ule': '<='}[pred]
+                return setd(T('int', bits=1), '(!((%s == %s) && (%s == %s)) || (%s %s %s))' % (a.c, a.c, b.c, b.c, a.c, sym, b.c))
             sym = {'oeq': '==', 'one': '!=', 'ogt': '>', 'oge': '>=', 'olt': '<', 'ole': '<=', 'une': '!=', 'ueq': '=='}[pred]
             return setd(T('int', bits=1), '(%s %s %s)' % (a.c, sym, b.c))
         if op in ('bitcast', 'inttoptr', 'ptrtoint', 'trunc', 'zext', 'sext', 'addrspacecast', 'uitofp', 'sitofp', 'fptoui', 'fptosi', 'fpext', 'fptrunc'):
@@ -803,6 +812,9 @@ class Emit:
         if n.startswith('uadd.sat.'): return '((%s)(%s + %s) < %s ? (%s)~(%s)0 : (%s)(%s + %s))' % (s.ctype(rt), args[0].c, args[1].c, args[0].c, s.ctype(rt), s.ctype(rt), s.ctype(rt), args[0].c, args[1].c)
         if n == 'fabs.f64': return '__builtin_fabs(%s)' % args[0].c
         if n == 'fabs.f32': return '__builtin_fabsf(%s)' % args[0].c
+        if n == 'fabs.f80': return '__builtin_fabsl(%s)' % args[0].c
+        if n in ('floor.f64', 'ceil.f64', 'trunc.f64', 'rint.f64', 'nearbyint.f64', 'round.f64'): return '__builtin_%s(%s)' % (n.split('.')[0], args[0].c)
+        if n in ('copysign.f64',): return '__builtin_copysign(%s, %s)' % (args[0].c, args[1].c)
         if n == 'trap': return 'VLL_TRAP()'
         if n.startswith('eh.typeid.for'): return 'vll_typeid_for(%s)' % args[0].c
         if n.startswith('fshl.') or n.startswith('fshr.'): return 'vll_%s%d(%s,%s,%s)' % (n[:4], args[0].t.bits, args[0].c, args[1].c, args[2].c)
